@@ -278,6 +278,11 @@ func (g *Gen) checkStoreRules(x *ssa.Store, a *Addr, v Val, st *State) {
 		env := g.specEnv(st, g.entry)
 		env.useLocals = true
 		env.vars["val"] = v
+		// obj: the struct whose field is written (usable as obj.OtherField in the rule)
+		if ov := g.val(fa.X, st); ov.S != nil && ov.S.K == KPtr {
+			ov.G = fa.X.Type()
+			env.vars["obj"] = ov
+		}
 		for _, cl := range r.Requires {
 			g.oblige(cl.Label, "B", fmt.Sprintf("at store to %s: %s", a.text, cl.Src), st.reach, env.evalBool(cl.E), false)
 		}
@@ -656,7 +661,17 @@ func (g *Gen) applyContract(spec *FuncSpec, c *ssa.CallCommon, st *State) []Val 
 	env.calleePkg = g.W.pkgOf(spec.Pkg)
 	env.calleeFn = callee
 	var preAll []string
+	// a callee whose contract is written for the other arithmetic mode (bit vectors vs mathematical integers):
+	// its clauses cannot be read in this function's mode. Only its frame is used; nothing is assumed about the
+	// results and its preconditions are not checked here (noted as an assumption).
+	crossMode := (spec.Mode == "bv") != g.bv
+	if crossMode {
+		g.note(fmt.Sprintf("call of %s from a function in the other arithmetic mode: only its frame is used (pre/postconditions not related)", spec.Name))
+	}
 	for _, cl := range spec.Requires {
+		if crossMode {
+			break
+		}
 		pt := env.evalBool(cl.E)
 		preAll = append(preAll, pt)
 		g.oblige("call."+spec.Name+"."+cl.Label, "A", fmt.Sprintf("precondition of %s: %s", spec.Name, cl.Src), st.reach, pt, false)
@@ -694,6 +709,9 @@ func (g *Gen) applyContract(spec *FuncSpec, c *ssa.CallCommon, st *State) []Val 
 		post.resultNames = resultNames(callee.Signature)
 	}
 	for _, cl := range spec.Ensures {
+		if crossMode {
+			break
+		}
 		if g.W.isRefuted(spec, cl.Label) {
 			continue // refuted clauses (known findings) are never assumed
 		}
@@ -703,6 +721,9 @@ func (g *Gen) applyContract(spec *FuncSpec, c *ssa.CallCommon, st *State) []Val 
 		g.assume(st.reach, sImp(preOK, post.evalBool(cl.E)))
 	}
 	for _, cl := range spec.TrustedEnsures {
+		if crossMode {
+			break
+		}
 		g.assume(st.reach, sImp(preOK, post.evalBool(cl.E)))
 		g.note(fmt.Sprintf("TRUSTED postcondition of %s assumed at call sites (not checked against its body): %s", spec.Name, cl.Src))
 	}
@@ -807,7 +828,7 @@ func (g *Gen) execBuiltin(x *ssa.Call, b *ssa.Builtin, c *ssa.CallCommon, st *St
 				dn, _ := g.mapNames(mt)
 				ds, _ := g.mapSorts(mt)
 				hd := g.heapGet(st, dn, ds)
-				t = g.defineRaw("mlen", "Int", sIte(sEq(a.T, "0"), "0", fmt.Sprintf("(map.len %s %s)", hd, a.T)))
+				t = g.defineRaw("mlen", "Int", sIte(sEq(a.T, "0"), "0", fmt.Sprintf("(%s %s %s)", mapLenFn(g.sortOf(mt.Key())), hd, a.T)))
 				g.assume("true", fmt.Sprintf("(>= %s 0)", t))
 				// len == 0 ⇔ empty domain
 				ks := g.sortOf(mt.Key())
@@ -849,7 +870,8 @@ func (g *Gen) execBuiltin(x *ssa.Call, b *ssa.Builtin, c *ssa.CallCommon, st *St
 		nd := g.defineRaw("h", ds, sIte(sEq(m.T, "0"), hd, fmt.Sprintf("(store %[1]s %[2]s (store (select %[1]s %[2]s) %[3]s false))", hd, m.T, k.T)))
 		st.heap[dn] = nd
 		was := fmt.Sprintf("(select (select %s %s) %s)", hd, m.T, k.T)
-		g.assume(st.reach, fmt.Sprintf("(= (map.len %s %s) (ite %s (- (map.len %s %s) 1) (map.len %s %s)))", nd, m.T, was, hd, m.T, hd, m.T))
+		ml := mapLenFn(g.sortOf(mt.Key()))
+		g.assume(st.reach, fmt.Sprintf("(= (%[5]s %[1]s %[2]s) (ite %[3]s (- (%[5]s %[4]s %[2]s) 1) (%[5]s %[4]s %[2]s)))", nd, m.T, was, hd, ml))
 	case "min", "max":
 		a, bb := g.val(c.Args[0], st), g.val(c.Args[1], st)
 		lt := g.binop(tokenLSS, a, bb, c.Args[0].Type(), types.Typ[types.Bool], nil)
